@@ -50,6 +50,16 @@ def add_unrequested_gaps(st, spec, p=0.03):
     return n
 
 
+def feed_as_lists_polls(st, spec, p=0.15):
+    """Call style: some polls hand the feed over as a list of lists (first element = column names) instead of a DataFrame."""
+    n = 0
+    for o in spec["ops"]:
+        if o["k"] == "poll" and st.feed.random() < p:
+            o["feed_as_lists"] = True
+            n += 1
+    return n
+
+
 def table_for(agg):
     return R.TABLE_NAME[agg]
 
